@@ -181,36 +181,6 @@ func variantsWorker(req N) (resp N) {
 	return N{"k": "ok", "gaps": len(r.Toks) - 1, "tried": tried, "bad": bad, "base": base}
 }
 
-// token-level mutation of a rendered program
-func mutate(r *ast.Renderer, rnd *rand.Rand) string {
-	toks := make([]ast.Tok, len(r.Toks))
-	copy(toks, r.Toks)
-	pool := []string{")", "(", "{", "}", "]", "[", ",", ":", ":=", "=", "+", "if", "else", "for", "func", "return", "in", "not", "?", ".", "1", "x", "\"s\"", "'t{'", "case", "switch", "break", "|", "&&", "const", "var", "range", "defer", "go", "<-", "import", "from", "as", "nil", "1.", "0x", "@", "~", "\\"}
-	i := rnd.Intn(len(toks))
-	switch rnd.Intn(4) {
-	case 0: // delete
-		toks = append(toks[:i], toks[i+1:]...)
-	case 1: // insert
-		t := ast.Tok{Text: pool[rnd.Intn(len(pool))], Sep: " "}
-		toks = append(toks[:i], append([]ast.Tok{t}, toks[i:]...)...)
-	case 2: // substitute
-		toks[i].Text = pool[rnd.Intn(len(pool))]
-	default: // truncate
-		toks = toks[:i]
-	}
-	var sb strings.Builder
-	for k, t := range toks {
-		if k > 0 {
-			if t.Sep == "" && rnd.Intn(4) == 0 {
-				sb.WriteString(" ")
-			}
-			sb.WriteString(t.Sep)
-		}
-		sb.WriteString(t.Text)
-	}
-	return sb.String()
-}
-
 func diagWorker(req N) (resp N) {
 	defer func() {
 		if r := recover(); r != nil {
@@ -229,7 +199,7 @@ func diagWorker(req N) (resp N) {
 		}
 	}
 	for m := 0; m < int(req["n"].(float64)); m++ {
-		src := mutate(r, rnd)
+		src := ast.Mutate(r, rnd)
 		ev := diagnose(src)
 		if ev != nil {
 			events = append(events, ev)
